@@ -8,6 +8,8 @@ import (
 	"context"
 	"encoding/json"
 	"fmt"
+	"go/constant"
+	"golang.org/x/tools/go/ssa"
 	"os"
 	"os/exec"
 	"path/filepath"
@@ -127,6 +129,11 @@ func (p *Program) replay(prop string, obls []*Obligation, opts checkOpts, dir st
 			}
 		}
 	}
+	if prop == "C07" {
+		for i, n := range p.envNames() {
+			rf.Hints[fmt.Sprintf("env.%d", i)] = n
+		}
+	}
 	res, cmdline, note := p.runHarness(prop, base, rf.Hints, opts)
 	for _, o := range obls {
 		if o.Kind == "bounded" && o.Failed && p.bounded != nil && p.bounded.FailInput != "" {
@@ -218,6 +225,52 @@ func (p *Program) langNamesLower() []string {
 	}
 	for _, n := range p.Lang.Names {
 		out = append(out, strings.ToLower(n))
+	}
+	return out
+}
+
+// envNames: environment variables the library reads (constant first argument
+// of os.Getenv / os.LookupEnv anywhere in the package), for the C07 replay.
+func (p *Program) envNames() []string {
+	seen := map[string]bool{}
+	var out []string
+	if p.Main == nil {
+		return out
+	}
+	fns := []*ssa.Function{}
+	for _, f := range p.allFunctions() {
+		fns = append(fns, f.fn)
+	}
+	if init := p.Main.Func("init"); init != nil {
+		fns = append(fns, init)
+		fns = append(fns, init.AnonFuncs...)
+	}
+	for _, fn := range fns {
+		if fn.Pkg != p.Main {
+			continue
+		}
+		for _, b := range fn.Blocks {
+			for _, in := range b.Instrs {
+				c, ok := in.(*ssa.Call)
+				if !ok || c.Call.IsInvoke() {
+					continue
+				}
+				callee, ok := c.Call.Value.(*ssa.Function)
+				if !ok || len(c.Call.Args) == 0 {
+					continue
+				}
+				switch callee.String() {
+				case "os.Getenv", "os.LookupEnv", "syscall.Getenv":
+					if k, ok := c.Call.Args[0].(*ssa.Const); ok && k.Value != nil && k.Value.Kind() == constant.String {
+						n := constant.StringVal(k.Value)
+						if n != "" && !seen[n] && len(out) < 8 {
+							seen[n] = true
+							out = append(out, n)
+						}
+					}
+				}
+			}
+		}
 	}
 	return out
 }
